@@ -430,6 +430,17 @@ pub fn run_check(check: &dyn Check, o: &Opts) -> i32 {
         println!("KNOWN-FINDING: property={id} {text} [sig={sig}, runs={n}]");
     }
 
+    {
+        // all distinct unknown signatures of this batch (the lowest run is minimised below)
+        let mut by_sig: BTreeMap<&str, (u64, u64, &str)> = BTreeMap::new();
+        for v in &unknown {
+            let e = by_sig.entry(v.2.sig.as_str()).or_insert((v.0, 0, v.2.detail.as_str()));
+            e.1 += 1;
+        }
+        for (sig, (first, n, detail)) in &by_sig {
+            println!("violation signature: {sig} (first run {first}, {n} runs): {detail}");
+        }
+    }
     let mut replay_path = None;
     if let Some((idx, scn, v)) = unknown.first().map(|x| (*x).clone()) {
         println!("violation in run {idx}: {} :: {}", v.sig, v.detail);
